@@ -61,6 +61,11 @@ func VerifTeardown() {
 			verifAssume(script[i] == 2 || script[i] == 4 || script[i] == 5)
 		}
 	}
+	desc := "client script:"
+	for _, st := range script {
+		desc += " " + []string{"start-s1", "stop-s1", "stop-unknown", "terminate", "malformed", "bogus", "start-s2"}[st]
+	}
+	verifLog(desc + "; upstream: " + verifItoa(nEvents) + " events then " + []string{"complete", "error", "disconnect", "stays open"}[upEnd])
 	go func() {
 		if !client.vSend(vClientMsg("connection_init", "", "")) {
 			return
@@ -101,6 +106,9 @@ func VerifTeardown() {
 	for _, fr := range client.frames {
 		var m map[string]interface{}
 		verifAssert(json.Unmarshal(fr, &m) == nil && m["type"] != nil, "every frame is a complete well-formed message")
+	}
+	if len(vWs.upstreams) >= 2 {
+		verifReach("two subscriptions running")
 	}
 	vFinished = true
 	vUps = vWs.upstreams
